@@ -613,6 +613,8 @@ func (p *prop) Run(line string) core.Outcome {
 		return p.runFs(f)
 	} else if len(f) == 9 && f[0] == "px" {
 		return p.runPx(f)
+	} else if len(f) == 7 && f[0] == "sc" {
+		return p.runSc(f)
 	}
 	recMode := 0
 	if strings.HasPrefix(line, "rr ") {
